@@ -1104,6 +1104,12 @@ class ContractObs(Observer):
                                  (p, dotted[len(PKG) + 1:], m),
                                  {"arg": bound[p].short(),
                                   "contract": want.short()})
+        if dotted == PKG + ".regions.Region.sky_within":
+            args = list(args)
+            if len(args) < 1 and "ra" in kwargs:
+                args.append(kwargs["ra"])
+            if len(args) < 2 and "dec" in kwargs:
+                args.append(kwargs["dec"])
         if dotted == PKG + ".regions.Region.sky_within" and len(args) >= 2:
             self.sites["sink"] += 1
             degin = kwargs.get("degin", args[2] if len(args) > 2 else None)
